@@ -92,6 +92,11 @@ def ev(n, t, mode):
         if m == 'group':
             return group_eval(n[2], t)
         return ev(n[2], t, m)
+    if k == 'lazychain':
+        # Auto(Pipe(WRAP(Iter(probe)), list)): the stream is consumed by the NEXT step, but every item is still read in WRAP's mode
+        if isinstance(t, (str, bytes)) or not hasattr(t, '__iter__'):
+            raise Err('other')
+        return [ev(n[2], item, n[1]) for item in list(t)]
     if k == 'tuple':
         if mode == 'auto':
             cur = t
@@ -156,7 +161,9 @@ def group_eval(probe, t):
 def gen_node(draw, d, under_group_ok=True):
     S_ = st.sampled_from
     kind = draw(S_(['p-str', 'p-str', 'p-dict', 'T'] if d <= 0 else
-                   ['p-str', 'p-dict', 'wrap', 'wrap', 'wrap', 'tuple', 'tuple', 'pipe', 'dict', 'coalesce', 'switch']))
+                   ['p-str', 'p-dict', 'wrap', 'wrap', 'wrap', 'tuple', 'tuple', 'pipe', 'dict', 'coalesce', 'switch', 'lazychain']))
+    if kind == 'lazychain':
+        return ['lazychain', draw(S_(['auto', 'fill', 'match'])), [draw(S_(['p-str', 'p-dict', 'T']))]]
     if kind in ('p-str', 'p-dict', 'T'):
         return [kind]
     if kind == 'wrap':
@@ -189,6 +196,9 @@ def build(n):
         return {'k': 'a'}
     if k == 'wrap':
         return WRAPPERS[n[1]](build(n[2]))
+    if k == 'lazychain':
+        from glom import Iter
+        return Auto(Pipe(WRAPPERS[n[1]](Iter(build(n[2]))), list))
     if k == 'tuple':
         return tuple(build(c) for c in n[1])
     if k == 'pipe':
@@ -213,6 +223,9 @@ def category(e):
 
 
 def wrapper_modes(n, acc):
+    if n[0] == 'lazychain':
+        acc.add(n[1])
+        return acc
     if n[0] == 'wrap':
         acc.add(n[1])
         wrapper_modes(n[2], acc)
@@ -239,6 +252,8 @@ def wrapper_then_probe(n):
             if a[0] == 'wrap' and b[0] in ('p-str', 'p-dict'):
                 return True
     kids = []
+    if n[0] == 'lazychain':
+        return True
     if n[0] in ('tuple', 'pipe', 'coalesce'):
         kids = n[1]
     elif n[0] == 'dict':
@@ -303,7 +318,7 @@ def gen_lit(draw, d, cyc_ok, depth_idx=0):
     kind = draw(S_(['dict', 'list', 'list', 'tuple', 'set', 'fset']))
     n = draw(st.integers(0, 3))
     if kind == 'dict':
-        keys = draw(st.lists(S_(['x', 'y', 'z', 'Tkey']), min_size=n, max_size=n, unique=True))
+        keys = draw(st.lists(S_(['x', 'y', 'z', 'Tkey', 'TupleKey', 'FsetKey']), min_size=n, max_size=n, unique=True))
         return ['dict', [[key, gen_lit(draw, d - 1, cyc_ok, depth_idx + 1)] for key in keys]]
     if kind in ('set', 'fset'):
         return [kind, [draw(S_([['s', 'a'], ['i', 1], ['T-scalar'], ['Val', ['i', 7]], ['s', 'x']])) for _ in range(n)]]
@@ -361,7 +376,7 @@ class Builder(object):
             d = {}
             self.stack.append(d)
             for key, v in r[1]:
-                d[T['name'] if key == 'Tkey' else key] = self.build(v)
+                d[{'Tkey': T['name'], 'TupleKey': (T['name'], 'x', (T['n'],)), 'FsetKey': frozenset([T['n'], 'y'])}.get(key, key)] = self.build(v)
             self.stack.pop()
             return d
         if k == 'list':
@@ -413,7 +428,7 @@ class RefBuilder(object):
             d = {}
             self.stack.append(d)
             for key, v in r[1]:
-                d[t['name'] if key == 'Tkey' else key] = self.build(v)
+                d[{'Tkey': t['name'], 'TupleKey': (t['name'], 'x', (t['n'],)), 'FsetKey': frozenset([t['n'], 'y'])}.get(key, key)] = self.build(v)
             self.stack.pop()
             return d
         if k == 'list':
